@@ -1,0 +1,99 @@
+//go:build verif
+
+package routing
+
+// Hooks for the out-of-tree verification harness (build tag verif), PRoPHET part. Add-only:
+// nothing here is compiled into a normal build. State accessors, direct calls of the
+// predictability updates and a constructor for a Prophet without a Core (only the arithmetic
+// entry points may be used on such an instance).
+
+import (
+	"github.com/dtn7/dtn7-go/pkg/bpv7"
+)
+
+// VerifProphet returns the Core's routing algorithm as *Prophet (nil when another one is active).
+func (c *Core) VerifProphet() *Prophet {
+	p, _ := c.routing.(*Prophet)
+	return p
+}
+
+// VerifNewProphetBare builds a Prophet with the given constants and empty maps, not attached to
+// a Core (no cron job, no block registration).
+func VerifNewProphetBare(config ProphetConfig) *Prophet {
+	return &Prophet{
+		predictabilities:     make(map[bpv7.EndpointID]float64),
+		peerPredictabilities: make(map[bpv7.EndpointID]map[bpv7.EndpointID]float64),
+		config:               config,
+	}
+}
+
+// VerifPreds returns a copy of the node's own predictabilities.
+func (prophet *Prophet) VerifPreds() map[bpv7.EndpointID]float64 {
+	prophet.dataMutex.RLock()
+	defer prophet.dataMutex.RUnlock()
+	r := make(map[bpv7.EndpointID]float64, len(prophet.predictabilities))
+	for k, v := range prophet.predictabilities {
+		r[k] = v
+	}
+	return r
+}
+
+// VerifPeerPreds returns a deep copy of the stored peer vectors.
+func (prophet *Prophet) VerifPeerPreds() map[bpv7.EndpointID]map[bpv7.EndpointID]float64 {
+	prophet.dataMutex.RLock()
+	defer prophet.dataMutex.RUnlock()
+	r := make(map[bpv7.EndpointID]map[bpv7.EndpointID]float64, len(prophet.peerPredictabilities))
+	for p, m := range prophet.peerPredictabilities {
+		c := make(map[bpv7.EndpointID]float64, len(m))
+		for k, v := range m {
+			c[k] = v
+		}
+		r[p] = c
+	}
+	return r
+}
+
+// VerifEncounter is the locked call of encounter made by ReportPeerAppeared.
+func (prophet *Prophet) VerifEncounter(peer bpv7.EndpointID) {
+	prophet.dataMutex.Lock()
+	prophet.encounter(peer)
+	prophet.dataMutex.Unlock()
+}
+
+// VerifAgePred ages one entry (as ageCron does for every key).
+func (prophet *Prophet) VerifAgePred(peer bpv7.EndpointID) {
+	prophet.dataMutex.Lock()
+	prophet.agePred(peer)
+	prophet.dataMutex.Unlock()
+}
+
+// VerifAgeCron runs the ageing cron job once.
+func (prophet *Prophet) VerifAgeCron() { prophet.ageCron() }
+
+// VerifImport stores a peer's vector and applies transitivity, as NotifyNewBundle does for a
+// metadata bundle addressed to this node.
+func (prophet *Prophet) VerifImport(peer bpv7.EndpointID, data map[bpv7.EndpointID]float64) {
+	prophet.dataMutex.Lock()
+	defer prophet.dataMutex.Unlock()
+	prophet.peerPredictabilities[peer] = data
+	prophet.transitivity(peer)
+}
+
+// VerifTransitivity calls transitivity for a peer (no-op when no vector is stored).
+func (prophet *Prophet) VerifTransitivity(peer bpv7.EndpointID) {
+	prophet.dataMutex.Lock()
+	defer prophet.dataMutex.Unlock()
+	prophet.transitivity(peer)
+}
+
+// VerifSetPred sets one own predictability (to place the node in a chosen state).
+func (prophet *Prophet) VerifSetPred(peer bpv7.EndpointID, v float64) {
+	prophet.dataMutex.Lock()
+	prophet.predictabilities[peer] = v
+	prophet.dataMutex.Unlock()
+}
+
+// VerifSendMetadata calls sendMetadata.
+func (prophet *Prophet) VerifSendMetadata(destination bpv7.EndpointID) {
+	prophet.sendMetadata(destination)
+}
